@@ -94,6 +94,9 @@ func newSite(w *world, debounce time.Duration) *site {
 	quiet.Silence()
 	st := &site{f: f, s: s, ambient: w.Ambient}
 	w.applyMemEndpoints(st)
+	if w.Ambient {
+		ztAwaitIndex(st, w)
+	}
 	return st
 }
 
@@ -130,6 +133,20 @@ func (st *site) idle(cs []activity) bool {
 func (st *site) quiesce(cs ...activity) bool {
 	return st.quiesceFor(calmTime, cs...)
 }
+
+// quiesceLoose does not insist on the initial exchange being complete: after a reconnect "the
+// first request was never answered" is a verdict, not a reason to wait.
+func (st *site) quiesceLoose(cs ...activity) bool {
+	loose := make([]activity, len(cs))
+	for i, c := range cs {
+		loose[i] = looseActivity{c}
+	}
+	return st.quiesceFor(4*calmTime, loose...)
+}
+
+type looseActivity struct{ activity }
+
+func (looseActivity) ready() bool { return true }
 
 func (st *site) quiesceFor(calm time.Duration, cs ...activity) bool {
 	deadline := time.Now().Add(settleTime)
